@@ -77,7 +77,7 @@ def gen_trace(seed, world, tier):
         sigma = None
     else:
         struct = "none"
-    scale = R_.choice([0, 0, 0, 0, 0, -3, 3, -6, 6, -9, 9, -13, 13])   # "for every quaternion matrix"
+    scale = R_.choice([0, 0, 0, 0, 0, -3, 3, -6, 6, -9, 9, -13, 13, R_.randint(-13, 13), R_.randint(-8, -1)])   # "for every quaternion matrix"
     if scale:
         A = {"gen": "scale", "of": A, "c": 10.0 ** scale}
     if R_.random() < 0.5:
